@@ -43,6 +43,8 @@ type World struct {
 	armTable   string
 	fired      bool
 	countAll   int
+	// PermuteOrder lets the tape permute map-derived sequences (ordering seam).
+	PermuteOrder bool
 }
 
 // NewWorld builds a fresh engine over an empty database "d".
@@ -53,12 +55,22 @@ func NewWorld(env *kernel.Env) *World {
 	pro := memory.NewDBProvider(db)
 	w := &World{Env: env, Pro: pro, DB: db, Eng: sqle.NewDefault(pro), perTable: map[string]int{}}
 	verifhook.FaultFn = w.faultFn
+	// ordering seam: sequences derived from Go map iteration inside the engine
+	// are sorted under the verif tag; with PermuteOrder the tape then permutes
+	// them, so that the order is explored instead of being left to the runtime
+	verifhook.OrderFn = func(n int, swap func(i, j int)) {
+		if w.PermuteOrder && n > 1 {
+			env.T.Perm(n, swap)
+			env.Probe("map-order-permuted")
+		}
+	}
 	return w
 }
 
 // Close detaches the hooks.
 func (w *World) Close() {
 	verifhook.FaultFn = nil
+	verifhook.OrderFn = nil
 	w.Eng.Close()
 }
 
